@@ -284,7 +284,7 @@ fn main() {
     let mut samples = vec![];
     for i in 0..args.cases {
         let map = i % 3 == 2;
-        let slow_socket = !map && i % 4 == 1;
+        let slow_socket = i % 4 == 1;
         // a session: consumers attach at any moment; the remote answers link, events, sync at any moment
         let n = rng.range(4, 16) as usize;
         let mut acts = vec![];
